@@ -6,11 +6,11 @@
      fteik2d_ok_true           fteik2d only performs in-range accesses
      TruncLawsR                the laws hold for exact real arithmetic
    `f_ok true false args = true` : index obligations on, divisor obligations off.
-   Compile proofs/SafetyTools.v, proofs/Safety2d.v, proofs/Solve2dProofs.v first. *)
+   Compile proofs/SafetyTools.v, proofs/Safety2d.v first. *)
 From Coq Require Import ZArith List Bool Lia Reals Lra.
 From FT.lib Require Import Num Arr ArrLemmas.
 From FT.gen Require Import Common Fteik2d.
-From FT.proofs Require Import SafetyTools Safety2d Solve2dProofs.
+From FT.proofs Require Import SafetyTools Safety2d.
 Import ListNotations.
 Open Scope Z_scope.
 
@@ -147,9 +147,61 @@ Ltac okw kinv linv post unfh isolve istep leaf :=
   | |- _ => leaf
   end.
 
-(* ---------- shapes through value-level code: `keeps` of Solve2dProofs.v ---------- *)
-Lemma sig_shape {A} (a b : arr A) : sig a = sig b -> shape a = shape b.
-Proof. unfold sig. intros E. injection E as E _. exact E. Qed.
+(* ---------- shapes through value-level code ---------- *)
+(* Goal  P (let x := v in F x)  where P is an invariant of the final state.  The let-chain is walked one binding at a
+   time and nothing is ever substituted: a bound array is replaced by a variable of known shape, a bound tuple of
+   arrays (a loop result, a conditional update) by a variable satisfying the invariant `vinv` of its type, any
+   other binding by an unconstrained variable.  `unfh H` unfolds an invariant hypothesis, `fin` closes an invariant
+   of a tuple of variables. *)
+Definition shp_is {A} (sh : list Z) (a : arr A) : Prop := shape a = sh.
+
+Ltac shape_expr a :=
+  lazymatch a with
+  | set ?b _ _ => shape_expr b
+  | set_sub ?b _ _ => shape_expr b
+  | full ?sh _ => sh
+  | fill ?b _ => shape_expr b
+  | (if _ then _ else ?b) => shape_expr b
+  | _ => lazymatch goal with
+         | Hsh : shape a = ?sh |- _ => sh
+         | _ => constr:(shape a)
+         end
+  end.
+
+Ltac vwalk vinv unfh fin :=
+  cbv beta;
+  lazymatch goal with
+  | |- ?P (let x := ?v in @?F x) =>
+      let X := fresh "X" in
+      change (let x := v in P (F x)); intro X; cbv beta;
+      let tv := type of v in
+      lazymatch tv with
+      | arr _ =>
+          let sh := shape_expr v in
+          let Hx := fresh "Hx" in
+          assert (Hx : shp_is sh X) by (unfold X; vwalk vinv unfh fin);
+          unfold shp_is in Hx; clearbody X
+      | _ =>
+          tryif (let Pv := vinv tv in idtac)
+          then (let Pv := vinv tv in
+                let Hx := fresh "Hx" in
+                assert (Hx : Pv X) by (unfold X; vwalk vinv unfh fin);
+                unfh Hx; norm_hyps; clearbody X)
+          else clearbody X
+      end;
+      vwalk vinv unfh fin
+  | |- ?P (if ?c then _ else _) =>
+      lazymatch c with
+      | true => cbv iota
+      | false => cbv iota
+      | _ => destruct c
+      end; vwalk vinv unfh fin
+  | |- ?P (for_list ?l ?b ?s) =>
+      let s' := fresh "s" in let Hs := fresh "Hs" in
+      apply (for_list_inv P l b s);
+      [ vwalk vinv unfh fin | intros ? s' ? Hs; unfh Hs; norm_hyps; vwalk vinv unfh fin ]
+  | |- _ => fin
+  end.
 
 Section P2ok.
 Context {T : Type} `{Num T}.
@@ -163,26 +215,25 @@ Definition inv2 (NZ NX : Z) (g : bool) (s : arr T * arr Z) : Prop :=
 Definition invg (NZ NX : Z) (g : bool) (a : arr T) : Prop := g = true -> shape a = [NZ; NX; 2].
 Definition invs (NZ NX : Z) (g : bool) (a : arr Z) : Prop := g = true -> shape a = [NZ; NX; 2].
 
-Lemma keeps_inv3 NZ NX g (s0 s : arr T * arr T * arr Z) : keeps s0 s -> inv3 NZ NX g s0 -> inv3 NZ NX g s.
-Proof.
-  unfold keeps, inv3. cbn [Solve2dProofs.shp Shp_arr Shp_pair].
-  intros ((A & B) & C) (H1 & H2 & H3).
-  rewrite (sig_shape _ _ A), (sig_shape _ _ B), (sig_shape _ _ C). auto.
-Qed.
-
-Ltac clear_all := repeat match goal with Hq : _ |- _ => clear Hq end.
 Ltac unfh2 H := unfold inv3, inv2, invg, invs in H; cbn [fst snd] in H.
+Ltac fin2 :=
+  unfold inv3, inv2, invg, invs, shp_is; cbn [fst snd];
+  repeat split; rewrite ?shape_set, ?shape_set_sub; cbn [shape full fill];
+  first [ assumption | reflexivity | intros _; assumption | let E := fresh "E" in intros E; discriminate E ].
+Ltac vwalk2 NZ NX g :=
+  vwalk ltac:(fun A => lazymatch A with
+                       | (arr T * arr T * arr Z)%type => constr:(inv3 NZ NX g)
+                       | (arr T * arr Z)%type => constr:(inv2 NZ NX g)
+                       end) unfh2 fin2.
 Ltac isolve2 :=
   cbv beta;
   lazymatch goal with
-  | |- inv3 _ _ _ (for_list ?l ?b ?st) =>
-      apply (keeps_inv3 _ _ _ st); [ clear_all; apply for_list_keeps; intros ? ? _; uwalk ltac:(idtac) | isolve2 ]
-  | |- _ =>
-      unfold inv3, inv2, invg, invs; cbn [fst snd];
-      repeat split; first [ assumption | intros _; assumption | let E := fresh "E" in intros E; discriminate E ]
+  | |- inv3 ?NZ ?NX ?g _ => vwalk2 NZ NX g
+  | |- _ => fin2
   end.
 Ltac istep2 s :=
-  cbv beta; apply (keeps_inv3 _ _ _ s); [ clear_all; uwalk ltac:(idtac) | assumption ].
+  cbv beta;
+  match goal with Hs : inv3 ?NZ ?NX ?g s |- _ => unfh2 Hs; norm_hyps; vwalk2 NZ NX g end.
 
 Ltac leaf2 :=
   first [ apply t_anad_ok_true | apply t_ana_ok_true | apply delta_ok_true
@@ -220,6 +271,7 @@ End P2ok.
 (* ------------------------------------------------------------------------------------------ *)
 (* the solver                                                                                   *)
 (* ------------------------------------------------------------------------------------------ *)
+(* conversion must never unfold the big generated constants when comparing two calls *)
 Local Strategy 1000 [fteik2d_p1 fteik2d_p2 fteik2d_p1_ok fteik2d_p2_ok sweep2d sweep2d_ok].
 
 Section Main.
@@ -253,16 +305,28 @@ Proof.
   destruct grad; repeat match goal with |- context [if ?c then _ else _] => destruct c end; reflexivity.
 Qed.
 
-(* the initialisation keeps the shape of the gradient array (that of the traveltime array: fteik2d_p2_sig) *)
-Definition tg_keeps (G0 : arr T) (r : arr T * arr T * arr Z) : Prop := sig (snd (fst r)) = sig G0.
-Lemma fteik2d_p2_gsig dx dz grad iflag nx nz slow (tt : arr T) G S vzero xsa xsi zsa zsi :
-  tg_keeps G (fteik2d_p2 dx dz grad iflag nx nz slow tt G S vzero xsa xsi zsa zsi).
+(* the initialisation keeps the shapes of the traveltime and gradient arrays *)
+Definition p2_shapes (NZ NX : Z) (g : bool) (r : arr T * arr T * arr Z) : Prop :=
+  shape (fst (fst r)) = [NZ; NX] /\ (g = true -> shape (snd (fst r)) = [NZ; NX; 2]).
+Lemma fteik2d_p2_shapes dx dz grad iflag NX NZ slow (tt G : arr T) (S : arr Z) vzero xsa xsi zsa zsi :
+  shape tt = [NZ; NX] -> (grad = true -> shape G = [NZ; NX; 2] /\ shape S = [NZ; NX; 2]) ->
+  p2_shapes NZ NX grad (fteik2d_p2 dx dz grad iflag NX NZ slow tt G S vzero xsa xsi zsa zsi).
 Proof.
-  cbv beta delta [fteik2d_p2].
-  lazymatch goal with |- tg_keeps ?t (let u := (if ?c then ?a else ?b) in _) =>
-    change (tg_keeps t (if c then a else b)); destruct c end.
-  - uwalk ltac:(unfold tg_keeps).
-  - uwalk ltac:(unfold tg_keeps).
+  intros Htt Hg. cbv beta delta [fteik2d_p2].
+  lazymatch goal with |- p2_shapes ?a ?b ?g (let u := (if ?c then ?x else ?y) in _) =>
+    change (p2_shapes a b g (if c then x else y)); destruct c end;
+  (destruct grad; norm_hyps;
+   lazymatch goal with |- p2_shapes _ _ ?g _ =>
+     vwalk ltac:(fun A => lazymatch A with
+                          | (arr T * arr T * arr Z)%type => constr:(inv3 NZ NX g)
+                          | (arr T * arr Z)%type => constr:(inv2 NZ NX g)
+                          end)
+           ltac:(fun Hh => unfold inv3, inv2, invg, invs in Hh; cbn [fst snd] in Hh)
+           ltac:(unfold p2_shapes, inv3, inv2, invg, invs, shp_is; cbn [fst snd];
+                 repeat split; rewrite ?shape_set, ?shape_set_sub; cbn [shape full fill];
+                 first [ assumption | reflexivity | intros _; assumption
+                       | let E := fresh "E" in intros E; discriminate E ])
+   end).
 Qed.
 
 Context `{!TruncLaws T}.
@@ -303,14 +367,13 @@ Proof.
     + reflexivity.
     + intros ->. split; reflexivity.
     + intros N. destruct (Hfl N) as [-> ->]. lia.
-  - set (P2 := fteik2d_p2 dx dz grad iflag (nx + 1) (nz + 1) slow tt1 G1 S1 vz xsa xsi zsa zsi).
+  - assert (Sh : p2_shapes (nz + 1) (nx + 1) grad
+                  (fteik2d_p2 dx dz grad iflag (nx + 1) (nz + 1) slow tt1 G1 S1 vz xsa xsi zsa zsi)).
+    { apply fteik2d_p2_shapes; [ reflexivity | intros ->; split; reflexivity ]. }
+    destruct Sh as [Sh1 Sh2].
     apply tail_ok_true; try lia; try assumption.
-    + pose proof (fteik2d_p2_sig dx dz grad iflag (nx + 1) (nz + 1) slow tt1 G1 S1 vz xsa xsi zsa zsi) as K.
-      unfold tt_keeps in K. fold P2 in K. apply sig_shape in K. rewrite K. reflexivity.
-    + intros ->. split.
-      * apply init_preserves_sgn_inv; try lia. apply sgn_inv_zeros; lia.
-      * pose proof (fteik2d_p2_gsig dx dz true iflag (nx + 1) (nz + 1) slow tt1 G1 S1 vz xsa xsi zsa zsi) as K.
-        unfold tg_keeps in K. fold P2 in K. apply sig_shape in K. rewrite K. reflexivity.
+    intros G. split; [ | exact (Sh2 G) ]. subst grad.
+    apply init_preserves_sgn_inv; try lia. apply sgn_inv_zeros; lia.
 Qed.
 End Main.
 
